@@ -282,6 +282,13 @@ def cases(tier, seed=0):
         if tier == "thorough" and not ident:
             out.append(lincond_case(kind, 2, 2, 1, semi=("Sq",), timeout=1800))
     out = [c for c in out if c is not None]
+    # constructor / history variants of the linear kinds (precision only; covariance and precision together; after update_Sigma)
+    for kind in ("full", "diag", "identity", "identitydiag", "nncontrol"):
+        for var in (("viaL",), ("viaSL",), ("upd",)):
+            if kind == "nncontrol" and var != ("upd",):
+                continue
+            dd = (1, 1) if kind.startswith("identity") else (1, 2)
+            out.append(lincond_case(kind, dd[0], dd[1], 1, semi=var))
     for model in ("lrbf", "lsem"):
         out.append(feature_case(model, 1, 1, 1, 1))
         out.append(feature_case(model, 1, 2, 1, 1))
